@@ -146,7 +146,7 @@ def c08Binding (j : Json) : Except String Binding := do
   | Json.arr #[Json.str v, Json.str u, Json.str b] => pure ⟨v.toList, u.toList, b.toList⟩
   | _ => throw "bad binding"
 
-/- `{"op":"c08.ops_table","rules":[{"selector":…,"bindings":[[verb,uri,body]…]}…],"prefix":…,"names":[…]}` -/
+/- `{"op":"c08.ops_table","rules":[{"selector":…,"bindings":[[verb,uri,body]…]}…],"package":…,"names":[…]}` -/
 open Model.Lro in
 def opC08OpsTable (j : Json) : Except String Json := do
   let rules ← (← getArrL j "rules").mapM fun r => do
@@ -155,10 +155,12 @@ def opC08OpsTable (j : Json) : Except String Json := do
     | [] => throw "rule without binding"
     | b :: more => pure (⟨← getStrL r "selector", b, more⟩ : YamlRule)
   let table := opsHttpTable (Pinned.reservedNames.map String.toList) rules
-  let pfx ← getStrL j "prefix"
+  -- "package": the package of the file that declares the service (the prefix is the model's `clientPackageVersion` of it)
+  let pfx := clientPackageVersion (← getStrL j "package")
   let names ← c08Strs j "names"
   let rowJ (r : Row) : Json := jarr [jstr r.method, jstr r.uri, optJson jstr r.body]
   pure (Json.mkObj [("table", jarr (table.map fun e => jarr [jstr e.1, jarr (e.2.map rowJ)])),
+                    ("prefix", jstr pfx),
                     ("paths", jarr (names.map fun n => optJson (fun (p : Str × Str) => jarr [jstr p.1, jstr p.2]) (opsGetPath table pfx n)))])
 
 open Model.Lro in
